@@ -1,6 +1,8 @@
 package checks
 
 import (
+	"verif/c11"
+	"verif/c12"
 	"verif/c13"
 	"verif/c14"
 	"verif/c15"
@@ -9,6 +11,8 @@ import (
 )
 
 func init() {
+	Registry["C11"] = c11.Run
+	Registry["C12"] = c12.Run
 	Registry["C13"] = c13.Run
 	Registry["C14"] = c14.Run
 	Registry["C15"] = c15.Run
